@@ -47,9 +47,14 @@ def main():
                 continue
         row = {}
         try:
-            for p in props:
+            row_props = props
+            if os.environ.get("MATRIX_DIAG") and sd != "<unchanged>":
+                # only the check of the property the change is aimed at
+                own = json.load(open(f"{SEEDS_DIR}/{sd}/meta.json"))["breaks_property"]
+                row_props = [own]
+            for p in row_props:
                 # C07 (2-3 minutes) only where its own property or the limits are concerned
-                if p == "C07" and sd != "<unchanged>" and not sd.startswith(("C07", "C02", "C03", "own")) and not os.environ.get("MATRIX_ALL_C07"):
+                if p == "C07" and sd != "<unchanged>" and not sd.startswith(("C07", "C02", "C03", "own")) and not os.environ.get("MATRIX_ALL_C07") and not os.environ.get("MATRIX_DIAG"):
                     continue
                 t0 = time.time()
                 pr = subprocess.run([os.path.join(ROOT, "check"), p, "quick"], cwd=ROOT, env=env, capture_output=True, text=True)
